@@ -9,24 +9,92 @@ SCALAR_NAMES = ['BOOLEAN.=', 'BOOLEAN.AND', 'BOOLEAN.OR', 'BOOLEAN.NOT', 'BOOLEA
                 'FLOAT.TAN', 'FLOAT.EXP', 'FLOAT.MAX', 'FLOAT.MIN', 'FLOAT.FROMBOOLEAN', 'FLOAT.FROMINTEGER', 'FLOAT.ID',
                 'NAME.=', 'NAME.CAT', 'NAME.ID']
 
+STACK_API = ['path:stack::PushStack::*']
+MANIP = ['DUP', 'DDUP', 'POP', 'SWAP', 'ROT', 'YANK', 'YANKDUP', 'SHOVE', 'FLUSH', 'STACKDEPTH']
+STACK_TYPES = ['BOOLEAN', 'INTEGER', 'FLOAT', 'NAME', 'CODE', 'EXEC', 'BOOLVECTOR', 'INTVECTOR', 'FLOATVECTOR']
+C05_NAMES = ['%s.%s' % (t, m) for t in STACK_TYPES for m in MANIP]
+VEC_EXTERNAL_NOTE = ('COUNT, SUM, MEAN, SORT*ASC/DESC, REMOVE, BOOLINDEX, *SCALAR and SINE use iterator adapters / closures / `usize as f32` that Verus '
+                     'cannot translate: their bodies are external (listed under out_of_reach); bounded Kani stand-ins are listed under bounded_stand_ins when run')
+
 PROPS = {
     'C16': dict(
         level='proof',
-        units=['path:stack::PushStack::*'],
+        units=STACK_API,
         explanation='every public method of PushStack<T> (generic T) is verified against the Seq<T> operation it implements; '
                     'operation histories of any length follow by composition of the per-method contracts',
-        not_decided=['PushStack::to_string (printing lists the items top first): iter().rev().enumerate() and format! are outside Verus; see bounded stand-in'],
+        not_decided=['PushStack::to_string (printing lists the items top first): iter().rev().enumerate() and format! are outside Verus'],
         assumptions=['positions passed to replace() are < usize::MAX (the quantifier\'s range is [0, len+2])',
                      'swap(i, j) is the raw slice swap and requires in-range indices (not part of the statement\'s list)'],
     ),
     'C04': dict(
         level='proof',
-        units=['name:' + n for n in SCALAR_NAMES] + ['path:stack::PushStack::pop', 'path:stack::PushStack::pop_vec',
-                                                      'path:stack::PushStack::push', 'path:stack::PushStack::copy_vec'],
+        units=['name:' + n for n in SCALAR_NAMES] + ['name:CODE.FROMBOOLEAN', 'name:CODE.FROMFLOAT', 'name:CODE.FROMINTEGER', 'name:CODE.FROMNAME'] + STACK_API,
         explanation='one contract per registered scalar instruction NAME, generated from the instruction table (spec/rows.py); the unit is '
                     '(NAME, function bound to NAME in the registry), so a wrong registry binding fails the NAME\'s contract',
         not_decided=['values of sin/cos/tan/exp (libm) are uninterpreted functions: only which function is applied to which operand is proved',
                      'IEEE order facts (FLOAT.MAX/MIN pick the larger/smaller operand; NaN handling): decided by the loop-free Kani harnesses of the thorough tier'],
-        assumptions=[],
+        thorough=True,
+    ),
+    'C05': dict(
+        level='proof',
+        units=['name:' + n for n in C05_NAMES] + STACK_API,
+        explanation='one spec per operation (yank_seq, shove_seq, clamp_idx with position 0 = top), instantiated for the nine stacks from one template; '
+                    'each result is a permutation / +1 copy / removal by construction of the spec; any of the hand-written copies that deviates fails its own unit',
+    ),
+    'C07': dict(
+        level='proof',
+        units=['nameglob:*.DEFINE', 'name:NAME.QUOTE', 'name:CODE.DEFINITION', 'path:interpreter::PushInterpreter::step'] + STACK_API,
+        label_re=r'.',
+        explanation='DEFINE binds name -> literal of the stack\'s type (map insert: a later definition replaces an earlier one); the identifier arm of step: quoted -> NAME stack and '
+                    'flag cleared, bound -> the bound value is scheduled, unbound -> NAME stack; CODE.DEFINITION returns the bound value',
+        assumptions=['A-hash: String keys hash/compare consistently; &str lookups find the String with the same characters'],
+    ),
+    'C02': dict(
+        level='proof',
+        units=['path:interpreter::PushInterpreter::*', 'path:state::PushState::size'],
+        explanation='step: returns true iff EXEC was empty and then changes nothing; run: NoErrors only with EXEC empty, at most eval_push_limit+1 steps started '
+                    '(loop invariant) and StepLimitExceeded exactly when that many were executed, termination by decreases limit+1-step_counter, configuration never changed',
+        not_decided=['that wall-clock time is bounded (liveness under an arbitrary clock): Instant::elapsed() returns an arbitrary Duration in the contract',
+                     '"the state left behind equals k manual steps": run changes the state only through copy_to_code_stack and step (both under contract); '
+                     'every other call in its body takes &self or locals -- guaranteed by the borrow checker on the extracted text, not a separate obligation'],
+        assumptions=['eval_push_limit in [-1, i32::MAX), growth_cap <= 2^31-1 (machine ranges from the quantifier)',
+                     'A-dispatch: an executed closure is one of the registered instruction functions (each verified panic-free under the envelope, configuration outside its footprint)',
+                     'ENVELOPE premise: two assume(envelope(state)) in run\'s loop -- C01\'s stated resource envelope holds along the run'],
+    ),
+    'C17': dict(
+        level='proof',
+        units=['path:buffer::PushBuffer::*', 'nameglob:INPUT.*', 'nameglob:OUTPUT.*'],
+        explanation='PushBuffer<T>: representation invariant wf() and abstract view live() (oldest first); push/push_force/pop/flush/get/get_mut/copy/peek verified against the bounded-sequence operations for both kinds; '
+                    'INPUT.*/OUTPUT.* rows on top of it',
+        not_decided=['printing (to_string uses format!/trim): outside Verus; the known slot-order defect of PushBuffer::to_string is therefore not decided here',
+                     'iteration: `impl Iterator for PushBufferIterator` is ignored (vstd attaches iterator-law obligations to every Iterator impl); no caller in the crate'],
+        assumptions=['capacity in 1..2^30 (index arithmetic goes through i32)'],
+    ),
+    'C09': dict(
+        level='proof',
+        units=['nameglob:BOOLVECTOR.*', 'nameglob:INTVECTOR.*', 'nameglob:FLOATVECTOR.*'] + STACK_API,
+        label_re=r'^C(09|05|07|06|13|10)',
+        explanation='element-wise operations verified (loop invariant) against overlay(second, top, offset, op) of the README; GET/SET clamp; ONES/ZEROS/LENGTH/APPEND/EMPTY/FROMINT/EQUAL/ROTATE/CONTAINS/SET*INSERT/NOT rows; '
+                    'registry binding is part of each unit',
+        not_decided=[VEC_EXTERNAL_NOTE, 'float element values are uninterpreted (which operation on which elements is proved)'],
+    ),
+    'C06': dict(
+        level='proof',
+        units=['name:EXEC.IF', 'name:EXEC.K', 'name:EXEC.S', 'name:EXEC.Y', 'name:EXEC.DUP', 'name:EXEC.LOOP', 'name:CODE.LOOP', 'name:CODE.IF', 'name:CODE.DO',
+               'name:CODE.DO*', 'name:CODE.QUOTE', 'name:INTVECTOR.LOOP', 'nameglob:INDEX.*', 'path:interpreter::PushInterpreter::step'] + STACK_API,
+        explanation='single steps: each combinator\'s new EXEC/CODE/INDEX stacks equal the documented rearrangement; list execution pushes the elements so that the first is on top',
+        not_decided=['whole-loop iteration counts (EXEC.LOOP / CODE.LOOP / INTVECTOR.LOOP run the body exactly n times): a multi-step property over the proved step transformers; not built',
+                     'CODE.LOOP re-arms with ( INDEX.INCREASE CODE.LOOP body ) but takes its body from the CODE stack: confirmed natively to run the body twice for destination 3 and leave 1/3 on INDEX '
+                     '(input `( 3 INDEX.DEFINE CODE.QUOTE ( 7 ) CODE.LOOP )`); only the multi-step lemma would expose it; the re-arm list is pinned by unit test code_loop_pushes_body_and_updated_loop'],
+    ),
+    'C10_pending': dict(
+        level='proof',
+        units=['nameglob:*'],
+        classes=['post'],
+        label_re=r'unfired|frame|fired\.shape|operands|wf\.buffers|only-pops|no-ids',
+        all_labels_in_scope=True,
+        explanation='the unfired.*, frame.*, fired.shape.* and operand clauses of every instruction row: nothing is pushed when an operand or guard is missing, operand stacks lose at most the row\'s operands, '
+                    'and every state component outside the row\'s footprint is unchanged',
+        not_decided=['instructions whose bodies are external (listed under out_of_reach) carry no checked contract'],
     ),
 }
